@@ -101,6 +101,8 @@ class _P:
         self.consts = consts or {}
         self.sizeof = sizeof
         self.flags = set()
+        self.notes = set()   # facts that matter only when comparing with a real C compiler (not verdict flags)
+        self.maxabs = 0
 
     def peek(self):
         return self.t[self.i] if self.i < len(self.t) else None
@@ -163,6 +165,13 @@ class _P:
             left = self.apply(op, left, right)
 
     def apply(self, op, a, b):
+        r = self._apply(op, a, b)
+        for x in (a, b, r):
+            if x is not None and abs(x) > self.maxabs:
+                self.maxabs = abs(x)
+        return r
+
+    def _apply(self, op, a, b):
         if a is None or b is None:
             return None
         if op == "|":
@@ -175,6 +184,10 @@ class _P:
             if b < 0:
                 self.flags.add("negshift")
                 return None
+            if a < 0:
+                self.notes.add("shift-of-negative")
+            if b >= 62:
+                self.notes.add("wide-shift")
             if op == "<<" and b > 4096:
                 self.flags.add("hugeshift")
                 return None
@@ -207,3 +220,17 @@ def evaluate(text, ctx=None, consts=None, sizeof=None):
     if p.peek() is not None:
         raise RefSyntaxError("trailing tokens")
     return v, p.flags
+
+
+def evaluate_ex(text, ctx=None, consts=None, sizeof=None):
+    """Like evaluate, plus {"notes", "maxabs", "tokens"} for the cross-check against a real C compiler."""
+    toks = tokenize(text)
+    if not toks:
+        raise RefSyntaxError("empty")
+    p = _P(toks, ctx, consts, sizeof)
+    v = p.expr(1)
+    if p.peek() is not None:
+        raise RefSyntaxError("trailing tokens")
+    if v is not None and abs(v) > p.maxabs:
+        p.maxabs = abs(v)
+    return v, p.flags, {"notes": p.notes, "maxabs": p.maxabs, "tokens": toks}
